@@ -33,6 +33,7 @@ type EnvSpec struct {
 
 type Target struct {
 	Name    string             `json:"name"`
+	Group   string             `json:"group"` // property whose tie file uses the definition; one generated file per group
 	File    string             `json:"file"`
 	Func    string             `json:"func"`
 	Recv    string             `json:"recv,omitempty"`
@@ -41,8 +42,9 @@ type Target struct {
 	Outputs []string           `json:"outputs,omitempty"`
 	Free    []string           `json:"free,omitempty"` // fragment: "name:class" of variables live on entry
 	Env     map[string]EnvSpec `json:"env,omitempty"`
-	Skip    []string           `json:"skip,omitempty"` // statements whose text starts with one of these are ignored (logging, hashing, error plumbing)
+	Skip    []string           `json:"skip,omitempty"`   // statements whose text starts with one of these are ignored (logging, hashing, error plumbing)
 	Option  bool               `json:"option,omitempty"` // fragment: a bare return inside it yields None, falling through yields Some outputs
+	IfCond  string             `json:"ifcond,omitempty"` // translate the condition of the (first) if statement of the function whose condition reads exactly so
 	Doc     string             `json:"doc,omitempty"`
 }
 
@@ -66,11 +68,15 @@ type gen struct {
 	envOrd  []string
 	defs    map[string][]param // generated definitions so far -> parameter list
 	retType string
+	consts  map[string]string // package-level integer constants
 }
 
+// failure of one target: recovered per group, so that a construct gotrans cannot translate (or a function
+// that disappeared) breaks only the tie of the property that uses it
+type failure struct{ msg string }
+
 func fail(pos token.Position, f string, a ...any) {
-	fmt.Fprintf(os.Stderr, "gotrans: %s: %s\n", pos, fmt.Sprintf(f, a...))
-	os.Exit(2)
+	panic(failure{fmt.Sprintf("%s: %s", pos, fmt.Sprintf(f, a...))})
 }
 
 func (g *gen) text(n ast.Node) string {
@@ -158,6 +164,9 @@ func (g *gen) expr(e ast.Expr) (string, string) {
 		}
 		if c, ok := g.vars[x.Name]; ok {
 			return x.Name, c
+		}
+		if v, ok := g.consts[x.Name]; ok {
+			return v, "untyped"
 		}
 		fail(pos, "unknown identifier %s", x.Name)
 	case *ast.SelectorExpr:
@@ -727,7 +736,8 @@ func (g *gen) findFragment(list []ast.Stmt, from string) []ast.Stmt {
 func main() {
 	repo := flag.String("repo", "/repo", "repository root")
 	cfgPath := flag.String("config", "targets.json", "targets")
-	out := flag.String("out", "Pure_Extracted.v", "output .v file")
+	outDir := flag.String("outdir", ".", "directory for the generated Pure_<group>.v files")
+	statusPath := flag.String("status", "", "write the per-group status (ok / failure text) to this JSON file")
 	flag.Parse()
 	raw, err := os.ReadFile(*cfgPath)
 	if err != nil {
@@ -742,209 +752,328 @@ func main() {
 	fset := token.NewFileSet()
 	files := map[string]*ast.File{}
 	pkgFiles := map[string][]*ast.File{}
-	var b strings.Builder
-	b.WriteString("(* GENERATED by gotrans from the repository's current source; do not edit.\n   One definition per configured Go function / statement fragment; machine arithmetic explicit\n   (u64, i64, sat64, whole_seconds from Lib/GoInt.v). *)\nFrom Coq Require Import ZArith Bool.\nFrom Verif Require Import Lib.GoInt.\nOpen Scope Z_scope.\n\n")
+	header := "(* GENERATED by gotrans from the repository's current source; do not edit.\n   One definition per configured Go function / statement fragment / if condition of group %s;\n   machine arithmetic explicit (u64, i64, sat64, ediv, whole_seconds from Lib/GoInt.v). *)\nFrom Coq Require Import ZArith Bool.\nFrom Verif Require Import Lib.GoInt%s.\nOpen Scope Z_scope.\n\n"
+	gb := map[string]*strings.Builder{}   // group -> body
+	gdeps := map[string]map[string]bool{} // group -> groups whose definitions it calls
+	gerr := map[string]string{}           // group -> first failure
+	defGroup := map[string]string{}
+	var groups []string
 	defs := map[string][]param{}
 	for ti := range cfg.Targets {
 		t := &cfg.Targets[ti]
-		path := filepath.Join(*repo, t.File)
-		f, ok := files[path]
-		if !ok {
-			f, err = parser.ParseFile(fset, path, nil, parser.ParseComments)
-			if err != nil {
-				fmt.Fprintln(os.Stderr, "gotrans:", err)
-				os.Exit(2)
-			}
-			files[path] = f
+		if t.Group == "" {
+			t.Group = "misc"
 		}
-		dir := filepath.Dir(path)
-		if _, ok := pkgFiles[dir]; !ok {
-			ents, _ := os.ReadDir(dir)
-			for _, e := range ents {
-				if strings.HasSuffix(e.Name(), ".go") && !strings.HasSuffix(e.Name(), "_test.go") {
-					pf, err := parser.ParseFile(fset, filepath.Join(dir, e.Name()), nil, 0)
-					if err == nil {
-						pkgFiles[dir] = append(pkgFiles[dir], pf)
+		if _, ok := gb[t.Group]; !ok {
+			gb[t.Group] = &strings.Builder{}
+			gdeps[t.Group] = map[string]bool{}
+			groups = append(groups, t.Group)
+		}
+		if gerr[t.Group] != "" {
+			continue // the group's file is already unusable
+		}
+		func() {
+			defer func() {
+				if r := recover(); r != nil {
+					if f, ok := r.(failure); ok {
+						gerr[t.Group] = t.Name + ": " + f.msg
+						return
+					}
+					panic(r)
+				}
+			}()
+			b := gb[t.Group]
+			path := filepath.Join(*repo, t.File)
+			f, ok := files[path]
+			if !ok {
+				f, err = parser.ParseFile(fset, path, nil, parser.ParseComments)
+				if err != nil {
+					panic(failure{err.Error()})
+				}
+				files[path] = f
+			}
+			dir := filepath.Dir(path)
+			if _, ok := pkgFiles[dir]; !ok {
+				ents, _ := os.ReadDir(dir)
+				for _, e := range ents {
+					if strings.HasSuffix(e.Name(), ".go") && !strings.HasSuffix(e.Name(), "_test.go") {
+						pf, err := parser.ParseFile(fset, filepath.Join(dir, e.Name()), nil, 0)
+						if err == nil {
+							pkgFiles[dir] = append(pkgFiles[dir], pf)
+						}
 					}
 				}
 			}
-		}
-		var fd *ast.FuncDecl
-		for _, d := range f.Decls {
-			if x, ok := d.(*ast.FuncDecl); ok && x.Name.Name == t.Func {
-				rt := ""
-				if x.Recv != nil && len(x.Recv.List) == 1 {
-					rt = strings.TrimPrefix((&gen{fset: fset}).text(x.Recv.List[0].Type), "*")
-				}
-				if rt == t.Recv {
-					fd = x
+			var fd *ast.FuncDecl
+			for _, d := range f.Decls {
+				if x, ok := d.(*ast.FuncDecl); ok && x.Name.Name == t.Func {
+					rt := ""
+					if x.Recv != nil && len(x.Recv.List) == 1 {
+						rt = strings.TrimPrefix((&gen{fset: fset}).text(x.Recv.List[0].Type), "*")
+					}
+					if rt == t.Recv {
+						fd = x
+					}
 				}
 			}
-		}
-		if fd == nil {
-			fmt.Fprintf(os.Stderr, "gotrans: %s: function %s (receiver %q) not found\n", t.File, t.Func, t.Recv)
-			os.Exit(2)
-		}
-		g := &gen{fset: fset, cfg: &cfg, t: t, fields: map[string]string{}, vars: map[string]string{}, usedF: map[string]bool{}, envP: map[string]string{}, defs: defs}
-		if fd.Recv != nil && len(fd.Recv.List[0].Names) == 1 {
-			g.recv = fd.Recv.List[0].Names[0].Name
-		}
-		// receiver struct fields with a supported type
-		if t.Recv != "" {
+			if fd == nil {
+				panic(failure{fmt.Sprintf("%s: function %s (receiver %q) not found", t.File, t.Func, t.Recv)})
+			}
+			g := &gen{fset: fset, cfg: &cfg, t: t, fields: map[string]string{}, vars: map[string]string{}, usedF: map[string]bool{}, envP: map[string]string{}, defs: defs}
+			if fd.Recv != nil && len(fd.Recv.List[0].Names) == 1 {
+				g.recv = fd.Recv.List[0].Names[0].Name
+			}
+			g.consts = map[string]string{}
 			for _, pf := range pkgFiles[dir] {
 				for _, d := range pf.Decls {
 					gd, ok := d.(*ast.GenDecl)
-					if !ok {
+					if !ok || gd.Tok != token.CONST {
 						continue
 					}
 					for _, sp := range gd.Specs {
-						ts, ok := sp.(*ast.TypeSpec)
-						if !ok || ts.Name.Name != t.Recv {
+						vs, ok := sp.(*ast.ValueSpec)
+						if !ok || len(vs.Names) != len(vs.Values) {
 							continue
 						}
-						st, ok := ts.Type.(*ast.StructType)
+						for i, n := range vs.Names {
+							if lit, ok := vs.Values[i].(*ast.BasicLit); ok && lit.Kind == token.INT {
+								g.consts[n.Name] = strings.ReplaceAll(lit.Value, "_", "")
+							}
+						}
+					}
+				}
+			}
+			// receiver struct fields with a supported type
+			if t.Recv != "" {
+				for _, pf := range pkgFiles[dir] {
+					for _, d := range pf.Decls {
+						gd, ok := d.(*ast.GenDecl)
 						if !ok {
 							continue
 						}
-						for _, fl := range st.Fields.List {
-							c, ok := cfg.Types[g.text(fl.Type)]
+						for _, sp := range gd.Specs {
+							ts, ok := sp.(*ast.TypeSpec)
+							if !ok || ts.Name.Name != t.Recv {
+								continue
+							}
+							st, ok := ts.Type.(*ast.StructType)
 							if !ok {
 								continue
 							}
-							for _, n := range fl.Names {
-								g.fields[n.Name] = c
-								g.forder = append(g.forder, n.Name)
+							for _, fl := range st.Fields.List {
+								c, ok := cfg.Types[g.text(fl.Type)]
+								if !ok {
+									continue
+								}
+								for _, n := range fl.Names {
+									g.fields[n.Name] = c
+									g.forder = append(g.forder, n.Name)
+								}
 							}
 						}
 					}
 				}
 			}
-		}
-		var fparams []param
-		body := fd.Body.List
-		if t.From == "" {
-			for _, p := range fd.Type.Params.List {
-				c, ok := g.classOpt(p.Type)
-				if !ok {
-					continue // usable only through the env mappings of the target
-				}
-				for _, n := range p.Names {
-					if n.Name == "_" {
-						continue
+			var fparams []param
+			body := fd.Body.List
+			if t.From == "" {
+				for _, p := range fd.Type.Params.List {
+					c, ok := g.classOpt(p.Type)
+					if !ok {
+						continue // usable only through the env mappings of the target
 					}
-					g.vars[n.Name] = c
-					fparams = append(fparams, param{n.Name, c})
-				}
-			}
-			if fd.Type.Results == nil || len(fd.Type.Results.List) != 1 {
-				fail(fset.Position(fd.Pos()), "exactly one result expected")
-			}
-			g.retType = g.class(fd.Type.Results.List[0].Type)
-		} else {
-			if fb := g.findFragment(body, t.From); fb != nil {
-				body = fb
-			}
-			lo, hi := -1, -1
-			for i, s := range body {
-				if lo < 0 && g.assigns(s, t.From) {
-					lo = i
-				}
-				if lo >= 0 && g.assigns(s, t.To) {
-					hi = i
-				}
-			}
-			if lo < 0 || hi < lo {
-				fail(fset.Position(fd.Pos()), "fragment %s..%s not found", t.From, t.To)
-			}
-			body = body[lo : hi+1]
-			for _, fr := range t.Free {
-				n, c := splitPC(fr)
-				g.vars[n] = c
-				fparams = append(fparams, param{n, c})
-			}
-		}
-		var term string
-		if t.From == "" {
-			term = g.stmts(body, 1, func() string {
-				fail(fset.Position(fd.End()), "control reaches the end of %s without a return", t.Func)
-				return ""
-			})
-			retTypes[t.Name] = g.retType
-		} else {
-			term = g.stmts(body, 1, func() string {
-				for _, o := range t.Outputs {
-					if _, ok := g.vars[o]; !ok {
-						fail(fset.Position(fd.Pos()), "output %s is not defined by the fragment", o)
+					for _, n := range p.Names {
+						if n.Name == "_" {
+							continue
+						}
+						g.vars[n.Name] = c
+						fparams = append(fparams, param{n.Name, c})
 					}
 				}
-				out := "(" + strings.Join(t.Outputs, ", ") + ")"
-				if len(t.Outputs) == 1 {
-					out = t.Outputs[0]
+				if t.IfCond == "" {
+					if fd.Type.Results == nil || len(fd.Type.Results.List) != 1 {
+						fail(fset.Position(fd.Pos()), "exactly one result expected")
+					}
+					g.retType = g.class(fd.Type.Results.List[0].Type)
 				}
-				if t.Option {
-					return "Some " + out
+			} else {
+				if fb := g.findFragment(body, t.From); fb != nil {
+					body = fb
 				}
-				return out
-			})
-		}
-		var ps []param
-		for _, fn := range g.forder {
-			if g.usedF[fn] {
-				ps = append(ps, param{fn, g.fields[fn]})
+				lo, hi := -1, -1
+				for i, s := range body {
+					if lo < 0 && g.assigns(s, t.From) {
+						lo = i
+					}
+					if lo >= 0 && g.assigns(s, t.To) {
+						hi = i
+					}
+				}
+				if lo < 0 || hi < lo {
+					fail(fset.Position(fd.Pos()), "fragment %s..%s not found", t.From, t.To)
+				}
+				body = body[lo : hi+1]
+				for _, fr := range t.Free {
+					n, c := splitPC(fr)
+					g.vars[n] = c
+					fparams = append(fparams, param{n, c})
+				}
+			}
+			var term string
+			if t.IfCond != "" {
+				var found ast.Expr
+				ast.Inspect(fd.Body, func(n ast.Node) bool {
+					if is, ok := n.(*ast.IfStmt); ok && found == nil && g.text(is.Cond) == t.IfCond {
+						found = is.Cond
+					}
+					return found == nil
+				})
+				if found == nil {
+					fail(fset.Position(fd.Pos()), "no if statement with condition %q in %s", t.IfCond, t.Func)
+				}
+				fparams = nil
+				g.vars = map[string]string{}
+				for _, fr := range t.Free {
+					n, c := splitPC(fr)
+					g.vars[n] = c
+					fparams = append(fparams, param{n, c})
+				}
+				e, c := g.expr(found)
+				if c != "bool" {
+					fail(fset.Position(found.Pos()), "condition of class %s", c)
+				}
+				term = e
+				retTypes[t.Name] = "bool"
+				body = []ast.Stmt{&ast.ExprStmt{X: found}}
+			} else if t.From == "" {
+				term = g.stmts(body, 1, func() string {
+					fail(fset.Position(fd.End()), "control reaches the end of %s without a return", t.Func)
+					return ""
+				})
+				retTypes[t.Name] = g.retType
+			} else {
+				term = g.stmts(body, 1, func() string {
+					for _, o := range t.Outputs {
+						if _, ok := g.vars[o]; !ok {
+							fail(fset.Position(fd.Pos()), "output %s is not defined by the fragment", o)
+						}
+					}
+					out := "(" + strings.Join(t.Outputs, ", ") + ")"
+					if len(t.Outputs) == 1 {
+						out = t.Outputs[0]
+					}
+					if t.Option {
+						return "Some " + out
+					}
+					return out
+				})
+			}
+			var ps []param
+			for _, fn := range g.forder {
+				if g.usedF[fn] {
+					ps = append(ps, param{fn, g.fields[fn]})
+				}
+			}
+			nFields[t.Name] = len(ps)
+			ps = append(ps, fparams...)
+			for _, n := range g.envOrd {
+				ps = append(ps, param{n, g.envP[n]})
+			}
+			// parameters must be distinct
+			seen := map[string]bool{}
+			for _, p := range ps {
+				if seen[p.name] {
+					fail(fset.Position(fd.Pos()), "parameter name %s used twice in %s", p.name, t.Name)
+				}
+				seen[p.name] = true
+			}
+			defs[t.Name] = ps
+			var src bytes.Buffer
+			if t.IfCond != "" {
+				src.WriteString("if " + t.IfCond + " { ... }")
+			} else if t.From == "" {
+				printer.Fprint(&src, fset, fd)
+			} else {
+				for _, s := range body {
+					printer.Fprint(&src, fset, s)
+					src.WriteString("\n")
+				}
+			}
+			h := sha256.Sum256(src.Bytes())
+			fmt.Fprintf(b, "(* %s — %s %s", t.Name, t.File, t.Func)
+			if t.From != "" {
+				fmt.Fprintf(b, " (statements %s .. %s)", t.From, t.To)
+			}
+			fmt.Fprintf(b, "; source sha256 %x\n", h[:8])
+			for _, l := range strings.Split(strings.TrimRight(src.String(), "\n"), "\n") {
+				b.WriteString("     " + strings.ReplaceAll(strings.ReplaceAll(l, "(*", "( *"), "*)", "* )") + "\n")
+			}
+			names := []string{}
+			for _, p := range ps {
+				names = append(names, fmt.Sprintf("(%s : %s)", p.name, map[string]string{"bool": "bool"}[p.class]+map[string]string{"u64": "Z", "i64": "Z", "time": "Z", "big": "Z"}[p.class]))
+			}
+			cls := []string{}
+			for _, p := range ps {
+				cls = append(cls, p.name+":"+p.class)
+			}
+			fmt.Fprintf(b, "   parameter classes: %s *)\n", strings.Join(cls, " "))
+			fmt.Fprintf(b, "Definition %s %s :=\n  %s.\n\n", t.Name, strings.Join(names, " "), term)
+			defGroup[t.Name] = t.Group
+			for n, g := range defGroup {
+				if g != t.Group && strings.Contains(term, "("+n+" ") {
+					gdeps[t.Group][g] = true
+				}
+			}
+		}()
+	}
+	// a group that uses definitions of a failed group is unusable too
+	for changed := true; changed; {
+		changed = false
+		for _, g := range groups {
+			if gerr[g] != "" {
+				continue
+			}
+			for d := range gdeps[g] {
+				if gerr[d] != "" {
+					gerr[g] = "uses group " + d + ", which failed: " + gerr[d]
+					changed = true
+				}
 			}
 		}
-		nFields[t.Name] = len(ps)
-		ps = append(ps, fparams...)
-		for _, n := range g.envOrd {
-			ps = append(ps, param{n, g.envP[n]})
+	}
+	status := map[string]string{}
+	ok := 0
+	for _, g := range groups {
+		imports := ""
+		var ds []string
+		for d := range gdeps[g] {
+			ds = append(ds, d)
 		}
-		// parameters must be distinct
-		seen := map[string]bool{}
-		for _, p := range ps {
-			if seen[p.name] {
-				fail(fset.Position(fd.Pos()), "parameter name %s used twice in %s", p.name, t.Name)
-			}
-			seen[p.name] = true
+		sort.Strings(ds)
+		for _, d := range ds {
+			imports += " Gen.Pure_" + d
 		}
-		defs[t.Name] = ps
-		var src bytes.Buffer
-		if t.From == "" {
-			printer.Fprint(&src, fset, fd)
+		text := fmt.Sprintf(header, g, imports) + gb[g].String()
+		if gerr[g] != "" {
+			status[g] = gerr[g]
+			text = "(* gotrans could not translate group " + g + " from the current source: " + strings.ReplaceAll(gerr[g], "*)", "* )") + " *)\n"
+			fmt.Printf("gotrans: group %s FAILED: %s\n", g, gerr[g])
 		} else {
-			for _, s := range body {
-				printer.Fprint(&src, fset, s)
-				src.WriteString("\n")
-			}
+			status[g] = "ok"
+			ok++
 		}
-		h := sha256.Sum256(src.Bytes())
-		fmt.Fprintf(&b, "(* %s — %s %s", t.Name, t.File, t.Func)
-		if t.From != "" {
-			fmt.Fprintf(&b, " (statements %s .. %s)", t.From, t.To)
+		path := filepath.Join(*outDir, "Pure_"+g+".v")
+		if old, err := os.ReadFile(path); err == nil && string(old) == text {
+			continue // keep the timestamp: no needless recompilation
 		}
-		fmt.Fprintf(&b, "; source sha256 %x\n", h[:8])
-		for _, l := range strings.Split(strings.TrimRight(src.String(), "\n"), "\n") {
-			b.WriteString("     " + strings.ReplaceAll(strings.ReplaceAll(l, "(*", "( *"), "*)", "* )") + "\n")
+		if err := os.WriteFile(path, []byte(text), 0o644); err != nil {
+			fmt.Fprintln(os.Stderr, err)
+			os.Exit(2)
 		}
-		names := []string{}
-		for _, p := range ps {
-			names = append(names, fmt.Sprintf("(%s : %s)", p.name, map[string]string{"bool": "bool"}[p.class]+map[string]string{"u64": "Z", "i64": "Z", "time": "Z", "big": "Z"}[p.class]))
-		}
-		cls := []string{}
-		for _, p := range ps {
-			cls = append(cls, p.name+":"+p.class)
-		}
-		fmt.Fprintf(&b, "   parameter classes: %s *)\n", strings.Join(cls, " "))
-		fmt.Fprintf(&b, "Definition %s %s :=\n  %s.\n\n", t.Name, strings.Join(names, " "), term)
 	}
-	var names []string
-	for n := range defs {
-		names = append(names, n)
+	if *statusPath != "" {
+		js, _ := json.MarshalIndent(status, "", " ")
+		_ = os.WriteFile(*statusPath, js, 0o644)
 	}
-	sort.Strings(names)
-	fmt.Fprintf(&b, "(* generated: %s *)\n", strings.Join(names, " "))
-	if err := os.WriteFile(*out, []byte(b.String()), 0o644); err != nil {
-		fmt.Fprintln(os.Stderr, err)
-		os.Exit(2)
-	}
-	fmt.Printf("gotrans: %d definitions\n", len(defs))
+	fmt.Printf("gotrans: %d definitions in %d groups (%d ok)\n", len(defs), len(groups), ok)
 }
